@@ -110,7 +110,8 @@ pub fn run(op: &str, args: &[&str]) -> Option<String> {
             format!("B={}#{}#E={}", show_bytes(&out), dump(&Distinfo::from_bytes(&out)), each.join(";"))
         }
         /* distinfo bytes, relative path, file content ("N" = do not create), "S" or algorithm index */
-        ("di.verify", [b, p, content, what]) => {
+        /* di.verifyl: the same, but the path checked is a symbolic link to the file (kept in another directory) */
+        ("di.verify", [b, p, content, what]) | ("di.verifyl", [b, p, content, what]) => {
             let d = Distinfo::from_bytes(&bytes(b));
             let dir = std::env::temp_dir().join(format!("pkgsrc_harness_{}", std::process::id()));
             let _ = std::fs::remove_dir_all(&dir);
@@ -125,7 +126,14 @@ pub fn run(op: &str, args: &[&str]) -> Option<String> {
                             std::fs::create_dir_all(parent).map_err(|_| "SETUP".to_string())?;
                         }
                     }
-                    std::fs::write(&rel, bytes(content)).map_err(|_| "SETUP".to_string())?;
+                    if op == "di.verifyl" {
+                        std::fs::create_dir_all("real files").map_err(|_| "SETUP".to_string())?;
+                        let target = dir.join("real files").join("the file");
+                        std::fs::write(&target, bytes(content)).map_err(|_| "SETUP".to_string())?;
+                        std::os::unix::fs::symlink(&target, &rel).map_err(|_| "SETUP".to_string())?;
+                    } else {
+                        std::fs::write(&rel, bytes(content)).map_err(|_| "SETUP".to_string())?;
+                    }
                 }
                 Ok::<String, String>(if *what == "S" {
                     match d.verify_size(&rel) {
